@@ -1127,6 +1127,8 @@ fn plan(fam: &[Member], adm: &[(Tuple, usize)], thorough: bool) -> Vec<Spec> {
         deep("free_c3_p1", t_any, 2, 3, 2, 4);
         deep("lin_c2", t_r1, 1, 3, 2, 5);
         deep("lk3_filter_d3", t_any, 1, 4, 3, 5);
+        // wide: several simulated opening points in the constraint-binding step of both verifiers
+        deep("wide13_p1", t_r1, 2, 4, 3, 5);
         return v;
     }
     // deep: every STARK x every tuple admitting its rate, windows of 3..5 lengths
@@ -1148,6 +1150,10 @@ fn plan(fam: &[Member], adm: &[(Tuple, usize)], thorough: bool) -> Vec<Spec> {
         ("pow4_c2_p3", 2),
         ("pow8_c1_p1", 3),
         ("wide8_p3", 1),
+        ("wide13_p1", 1),
+        ("wide16_d3_p1", 1),
+        ("wide9_d5_p1", 2),
+        ("wide26_lin", 1),
         ("lk1_counter_d2", 1),
         ("lk2_high_d3", 1),
         ("lk3_filter_d2", 1),
